@@ -42,15 +42,19 @@ def P(pid, modules, fields, quick, thorough, consumes=(), search=None, **kw):
     return d
 
 
-GUARDS = ["guardFromStr", "guardFromStaticStr", "guardWithCapacity", "guardReserveStatic", "guardReserveInline",
-          "guardReserveUnique", "guardShrinkInline", "guardShrinkNoop", "guardInlineSetLen", "guardTextLenNew",
-          "guardCapacityNew", "guardStaticNew", "maxInlineSize", "heapMaxLen", "staticMaxLen", "headerSize",
-          "mask1100", "lastByteDiscriminants", "heapTag", "staticTag"]
+CONSTS = ["maxInlineSize", "heapMaxLen", "staticMaxLen", "headerSize", "mask1100", "heapTag", "staticTag"]
+GUARDS = CONSTS
+G09 = CONSTS + ["guardFromStr", "guardFromStaticStr", "guardWithCapacity", "guardReserveStatic", "guardReserveInline", "guardInlineSetLen"]
+G10 = CONSTS + ["guardFromStaticStr", "guardStaticNew"]
+G11 = CONSTS + ["guardReserveUnique", "guardWithCapacity", "guardReserveInline"]
+G13 = CONSTS + ["guardShrinkInline", "guardShrinkNoop"]
+G06 = CONSTS + ["guardTextLenNew", "guardCapacityNew", "guardStaticNew", "amortizedGrowth"]
+G20 = CONSTS + ["lastByteDiscriminants"]
 
 PROPS = {
     "C01": P("C01", ["LSProofs.Props.C01"], ["out", "text", "len", "handles"],
              [RANDOM_Q, ENUM_Q, fam("tour", n=300)], [RANDOM_T, ENUM_T, fam("tour", n=3000)], GUARDS),
-    "C02": P("C02", ["LSProofs.Props.C02"], ["text", "len", "ptr", "rc", "kind", "handles"],
+    "C02": P("C02", ["LSProofs.Props.C02"], ["text", "len", "ptr", "kind", "handles"],
              [fam("ladder", n=400), RANDOM_Q, ENUM_Q], [fam("ladder", n=4000), RANDOM_T, ENUM_T], GUARDS),
     "C03": P("C03", ["LSProofs.Props.C03"], ["ev", "rc", "handles"],
              [RANDOM_Q, ENUM_Q, fam("ladder", n=300)], [RANDOM_T, ENUM_T, fam("ladder", n=3000)], GUARDS),
@@ -60,29 +64,29 @@ PROPS = {
     "C05": P("C05", ["LSProofs.Props.C05"], ["out", "text", "rc", "ev", "handles"],
              [fam("faultsweep", n=250), ENUM_Q], [fam("faultsweep", n=2500), ENUM_T, RANDOM_T], GUARDS,
              search=[fam("faultsweep", n=3000), fam("random", n=30000)]),
-    "C06": P("C06", ["LSProofs.Props.C06"], ["out", "text", "len", "cap", "kind", "rc", "ev"],
-             [fam("sizes", n=1), RANDOM_Q], [fam("sizes", n=4), RANDOM_T], GUARDS + ["amortizedGrowth"],
+    "C06": P("C06", ["LSProofs.Props.C06"], ["out", "text", "len", "kind", "rc"],
+             [fam("sizes", n=1), RANDOM_Q], [fam("sizes", n=4), RANDOM_T], G06,
              search=[fam("sizes", n=4), fam("random", n=30000)]),
-    "C07": P("C07", ["LSProofs.Props.C07"], ["out", "text", "len", "cap", "ptr", "rc", "ev", "kind", "handles"],
+    "C07": P("C07", ["LSProofs.Props.C07"], ["out", "text", "len", "handles"],
              [fam("indexgrid", n=1), ENUM_Q], [fam("indexgrid", n=3), ENUM_T, RANDOM_T], GUARDS,
              search=[fam("indexgrid", n=3), fam("random", n=30000)]),
-    "C08": P("C08", ["LSProofs.Props.C08"], ["ev", "ptr", "rc", "kind"],
+    "C08": P("C08", ["LSProofs.Props.C08"], ["ev", "ptr", "kind"],
              [fam("clones", n=300), ENUM_Q], [fam("clones", n=3000), ENUM_T, RANDOM_T], ["matchTypeArms", "libGlue"],
              search=[fam("clones", n=3000), fam("random", n=30000)]),
     "C09": P("C09", ["LSProofs.Props.C09"], ["kind", "ev", "cap", "ptr"],
-             [fam("inline", n=1), RANDOM_Q], [fam("inline", n=3), RANDOM_T, ENUM_T], GUARDS,
+             [fam("inline", n=1), RANDOM_Q], [fam("inline", n=3), RANDOM_T, ENUM_T], G09,
              search=[fam("inline", n=3), fam("random", n=30000)]),
     "C10": P("C10", ["LSProofs.Props.C10"], ["kind", "ptr", "ev"],
-             [fam("statics", n=300), ENUM_Q], [fam("statics", n=3000), ENUM_T, RANDOM_T], GUARDS,
+             [fam("statics", n=300), ENUM_Q], [fam("statics", n=3000), ENUM_T, RANDOM_T], G10,
              search=[fam("statics", n=3000), fam("random", n=30000)]),
     "C11": P("C11", ["LSProofs.Props.C11"], ["cap", "len", "ptr", "ev", "rc"],
-             [fam("capacity", n=300), RANDOM_Q], [fam("capacity", n=3000), RANDOM_T, ENUM_T], GUARDS,
+             [fam("capacity", n=300), RANDOM_Q], [fam("capacity", n=3000), RANDOM_T, ENUM_T], G11,
              search=[fam("capacity", n=3000), fam("random", n=30000)]),
     "C12": P("C12", ["LSProofs.Props.C12"], ["cap"],
-             [fam("growth", n=1), RANDOM_Q], [fam("growth", n=4), RANDOM_T], ["amortizedGrowth", "heapMaxLen"],
+             [fam("growth", n=1), RANDOM_Q], [fam("growth", n=4), RANDOM_T], ["amortizedGrowth", "heapMaxLen", "growthCallArgs"],
              search=[fam("growth", n=4), fam("random", n=30000)]),
     "C13": P("C13", ["LSProofs.Props.C13"], ["cap", "kind", "text"],
-             [fam("shrink", n=1), RANDOM_Q], [fam("shrink", n=4), RANDOM_T, ENUM_T], GUARDS,
+             [fam("shrink", n=1), RANDOM_Q], [fam("shrink", n=4), RANDOM_T, ENUM_T], G13,
              search=[fam("shrink", n=4), fam("random", n=30000)]),
     "C14": P("C14", ["LSProofs.Props.C14"], ["out", "text", "kind", "cap", "ev"],
              [fam("ints", n=20000)], [fam("ints", n=400000), fam("ints_exhaustive32", n=1, scripted=False)],
@@ -106,7 +110,7 @@ PROPS = {
     "C19": P("C19", ["LSProofs.Props.C19"], None,
              [fam("serde", n=3, scripted=False)], [fam("serde", n=5, scripted=False)], ["serdeBodies", "arbitraryBodies"],
              search=[fam("serde", n=5, scripted=False)], scripted=False, ext=True),
-    "C20": P("C20", ["LSProofs.Props.C20"], ["out", "text", "len", "kind", "ev", "rc", "handles"],
-             [fam("niche", n=1), RANDOM_Q], [fam("niche", n=1), RANDOM_T, ENUM_T], GUARDS,
+    "C20": P("C20", ["LSProofs.Props.C20"], ["out", "text", "len", "kind", "handles"],
+             [fam("niche", n=1), RANDOM_Q], [fam("niche", n=1), RANDOM_T, ENUM_T], G20,
              search=[fam("random", n=30000)], configs=True),
 }
